@@ -70,3 +70,8 @@ CASES += [
     {"name": "temperature guard written as positive branch", "kind": "twin", "edits": [
         (AB14, "        if not self.sbi.has_temperature():\n            return 0.0\n        \n        return self.sbi.get_temperature()", "        if self.sbi.has_temperature():\n            return self.sbi.get_temperature()\n        return 0.0", 1)]},
 ]
+
+CASES += [
+    {"name": "temperature short-cut by the bath flag (seeded change of round 5)", "kind": "mutant", "rule": "C14-I", "edits": [
+        ("quantarhei/builders/molecules.py", "        if self.check_temperature_consistent():", "        if not self._has_system_bath_coupling:\n            return 0.0\n        if self.check_temperature_consistent():", 1)]},
+]
